@@ -926,7 +926,13 @@ func c05GenScn(r *VRand, stats *VStats, forcedWindow int64) *c05Scn {
 	var head []byte
 	kind := ""
 	if p53 {
-		switch r.Intn(9) {
+		switch r.Intn(11) {
+		case 9, 10:
+			// a length prefix whose frame (2+len) exceeds the 4096-byte detection reader — or, computed in
+			// uint16 as the code once did, wraps to 0/1 (0xFFFE, 0xFFFF): never DNS, relayed intact
+			pfx := [][]byte{{0xff, 0xff}, {0xff, 0xfe}, {0xff, 0xfd}, {0xff, 0xfc}, {0xff, 0xf0}, {0x10, 0x00}, {0x0f, 0xff}, {0x0f, 0xfe}, {0x0f, 0xfd}, {0x80, 0x00}, {0x7f, 0xff}}[r.Intn(11)]
+			n := []int{0, 1, 2, 40, 4093, 4094, 4095, 5000}[r.Intn(8)]
+			kind, head = "dns-len-wraps", append(append([]byte{}, pfx...), c05GenBytes(r.Intn(256), n)...)
 		case 0:
 			kind, head = "dns-query", c05DnsFrame(r, false, "example.org")
 		case 1:
@@ -1105,6 +1111,14 @@ func c05Directed() []*c05Scn {
 		{port: 53, window: 100 * c05Ms, rcw: true, kind: "d.port53-short-idle",
 			client: c05Script{evs: []c05Ev{lit(1, "\x00\x05hello"), lit(6*c05Sec+1, "x")}, finT: 6*c05Sec + 5},
 			up:     c05Script{finT: 7*c05Sec + 2}},
+		// length prefix 0xFFFF: 2+len wrapped to 1 in uint16, Peek(1) returned one byte and fullData[2:] panicked
+		// in the connection handler (fixed 74b17e5); must be relayed intact
+		{port: 53, window: 100 * c05Ms, rcw: true, kind: "d.port53-length-prefix-ffff",
+			client: c05Script{evs: []c05Ev{lit(1, "\xff\xff\x00")}, finT: 101},
+			up:     c05Script{finT: 6*c05Sec + 2}},
+		{port: 53, window: 100 * c05Ms, rcw: true, kind: "d.port53-length-prefix-fffe",
+			client: c05Script{evs: []c05Ev{lit(1, "\xff\xfe"), lit(200*c05Ms+1, "more")}, finT: 300*c05Ms + 1},
+			up:     c05Script{finT: 6*c05Sec + 2}},
 		// DNS response frame first
 		{port: 53, window: 100 * c05Ms, rcw: true, kind: "d.port53-response",
 			client: c05Script{evs: []c05Ev{{1, c05Lit(append([]byte{0, 12, 0xab, 0xcd, 0x80, 0, 0, 0, 0, 0, 0, 0, 0, 0}, []byte("REST-OF-STREAM")...))}}, finT: 101},
